@@ -501,7 +501,7 @@ def _run(chk, tier, rp):
     elif rp is not None:
         vectors, stats = [], {}
     else:
-        k = 6 if tier == 'quick' else 64
+        k = 6 if tier == 'quick' else 128
         _, _, vectors, stats = V.build(tier, k=k, envs=ENVS)
         cap = [v for v in V.captured_vectors(corpus) if f'{v["family"]}:{v["version"]}' in ENVS]
         vectors += cap
